@@ -510,3 +510,30 @@ def r20_2(ctx, rr):
         rr.check(show(F, x.body).replace(" ", "") in ("{lenders::next(&mutself.buf,&mutself.line)}",), "%s:shared-reader" % short_fn(x.key), "%s must delegate to the shared line reader on (buf, line)" % x.key, x.span)
     if len(nexts) < 3:
         raise AnchorMissing("expected 3 line lenders using the shared reader, found %d" % len(nexts))
+
+
+@rule("R20.3", props=["C20"], floor=1, title="a rewound adapter is not rebuilt from consumed iteration state (Take::rewind)")
+def r20_3(ctx, rr):
+    """Table fact (lender 0.3): `Take::into_parts().1` is the *remaining* count, decremented by next()."""
+    F = ctx.F()
+    bs = [b for b in F.fns() if b.name == "rewind" and (b.impl_trait or "").endswith("RewindableIoLender") and "lender::Take" in (b.impl_self or "")]
+    if len(bs) != 1:
+        raise AnchorMissing("expected one RewindableIoLender impl for lender::Take")
+    b = bs[0]
+    parts = [n for n in walk(b.body) if cname(F, n) == "Take::into_parts"]
+    takes = [n for n in walk(b.body) if n.get("k") == "MethodCall" and n["name"] == "take"]
+    rr.instances += 1
+    rr.assumptions.append("lender::Take::into_parts().1 is the remaining count (decremented by Take::next)")
+    uses_remaining = False
+    if parts and takes:
+        # the count given to take() is the second component bound from into_parts()
+        for n in walk(b.body):
+            if n.get("k") == "LetStmt" and n.get("init") is parts[0] and n["pat"].get("k") == "PTuple" and len(n["pat"]["ps"]) == 2:
+                cnt = n["pat"]["ps"][1]
+                for t in takes:
+                    a = t["args"][0]
+                    if a.get("k") == "Path" and a.get("id") == cnt.get("id"):
+                        uses_remaining = True
+    rr.ob(not uses_remaining, key="Take::rewind:original-count", sample={"fn": b.key, "body": show(F, b.body)[:200]})
+    if uses_remaining:
+        rr.violate("Take::rewind:uses-remaining-count", "%s rebuilds the Take adapter with the count returned by into_parts(), which is the number of items *remaining*: after consuming k of n items the rewound lender yields only n - k items" % b.key, b.span)
